@@ -171,3 +171,25 @@ V("c14-bias-missing", "break", ["C14"], (FM, "            if srbitsbar > 0:\n   
 V("c14-default-srbits", "break", ["C14"], (FM, "            self.srbits = 23 - self.mantissa_bits", "            self.srbits = 22 - self.mantissa_bits"))
 V("c14-srbitsbar", "break", ["C14"], (FM, "            srbitsbar = 23 - self.mantissa_bits - self.srbits", "            srbitsbar = 24 - self.mantissa_bits - self.srbits"))
 V("c14-keep-ge1", "keep", ["C14"], (FM, "            if srbitsbar > 0:", "            if srbitsbar >= 1:"))
+
+# ---------------------------------------------------------------- C15
+SF = "unit_scaling/transforms/_simulate_format.py"
+V("c15-quantise-bias", "break", ["C15"], (SF, "    input = fwd_format.quantise_fwd(input)\n    weight = fwd_format.quantise_fwd(weight)\n    output = F.linear(input, weight, bias)", "    input = fwd_format.quantise_fwd(input)\n    weight = fwd_format.quantise_fwd(weight)\n    bias = fwd_format.quantise_fwd(bias) if bias is not None else None\n    output = F.linear(input, weight, bias)"), expect="_quantised_linear")
+V("c15-bwd-uses-fwd-format", "break", ["C15"], (SF, "    output = F.linear(input, weight, bias)\n    return bwd_format.quantise_bwd(output)", "    output = F.linear(input, weight, bias)\n    return fwd_format.quantise_bwd(output)"))
+V("c15-bwd-quantise-fwd", "break", ["C15"], (SF, "    output = U.linear(input, weight, bias, constraint)\n    return bwd_format.quantise_bwd(output)", "    output = U.linear(input, weight, bias, constraint)\n    return bwd_format.quantise_fwd(output)"))
+V("c15-drop-constraint", "break", ["C15"], (SF, "    output = U.linear(input, weight, bias, constraint)", "    output = U.linear(input, weight, bias)"))
+V("c15-weight-unquantised", "break", ["C15"], (SF, "    input, weight = (fwd_format.quantise_fwd(t) for t in (input, weight))", "    input, weight = fwd_format.quantise_fwd(input), weight"))
+V("c15-wrong-op", "break", ["C15"], (SF, "    output = U.scaled_dot_product_attention(query, key, value, *args, **kwargs)", "    output = F.scaled_dot_product_attention(query, key, value, *args, **kwargs)"))
+V("c15-formats-swapped-in-wrapper", "break", ["C15"], (SF, "    fwd_format = tuple_to_format(fwd_format_tuple)\n    bwd_format = tuple_to_format(bwd_format_tuple)\n    input = fwd_format.quantise_fwd(input)", "    fwd_format = tuple_to_format(bwd_format_tuple)\n    bwd_format = tuple_to_format(fwd_format_tuple)\n    input = fwd_format.quantise_fwd(input)"))
+V("c15-ste-bwd-quantises", "break", ["C15"], (FM, "            ) -> Tensor:\n                return grad_y\n", "            ) -> Tensor:\n                return self.quantise(grad_y)\n"), expect="quantise_fwd::backward")
+V("c15-ste-fwd-identity", "break", ["C15"], (FM, "            def forward(ctx: torch.autograd.function.FunctionCtx, x: Tensor) -> Tensor:\n                return self.quantise(x)", "            def forward(ctx: torch.autograd.function.FunctionCtx, x: Tensor) -> Tensor:\n                return x"))
+V("c15-qbwd-fwd-quantises", "break", ["C15"], (FM, "            def forward(ctx: torch.autograd.function.FunctionCtx, x: Tensor) -> Tensor:\n                return x\n", "            def forward(ctx: torch.autograd.function.FunctionCtx, x: Tensor) -> Tensor:\n                return self.quantise(x)\n"))
+V("c15-fp8-swapped", "break", ["C15"], (SF, "fwd_format=FPFormat(4, 3), bwd_format=FPFormat(5, 2)", "fwd_format=FPFormat(5, 2), bwd_format=FPFormat(4, 3)"), expect="simulate_fp8")
+V("c15-simulate-swapped", "break", ["C15"], (SF, "        module, _quantisation_backend(fwd_format, bwd_format)\n", "        module, _quantisation_backend(bwd_format, fwd_format)\n"))
+V("c15-backend-callmethod", "break", ["C15"], (SF, "            if node.op == \"call_function\" and node.target in _replacement_map:", "            if node.target in _replacement_map:"))
+V("c15-backend-skips-u", "break", ["C15"], (SF, "            if node.op == \"call_function\" and node.target in _replacement_map:", "            if node.op == \"call_function\" and node.target in (F.linear, F.scaled_dot_product_attention):"))
+V("c15-tuple-drops-rounding", "break", ["C15"], (FM, "        format.rounding,\n        format.srbits,\n    )", "    )"), expect="format_to_tuple")
+V("c15-splice-kwargs-blind", "break", ["C15"], (SF, "    for name in list(signature(quantised_fn).parameters)[len(args) : 3]:\n        args.append(kwargs.pop(name, None))", "    if len(args) == 2:\n        args.append(None)"), expect="_replace_with_quantised[F.linear]")
+V("c15-attn-no-varargs", "break", ["C15"], (SF, "    bwd_format_tuple: Tuple[int, int],\n    *args: Any,\n    **kwargs: Any,\n) -> Tensor:\n    fwd_format = tuple_to_format(fwd_format_tuple)\n    bwd_format = tuple_to_format(bwd_format_tuple)\n    query, key, value = (fwd_format.quantise_fwd(t) for t in (query, key, value))\n    output = F.scaled_dot_product_attention(query, key, value, *args, **kwargs)", "    bwd_format_tuple: Tuple[int, int],\n    **kwargs: Any,\n) -> Tensor:\n    fwd_format = tuple_to_format(fwd_format_tuple)\n    bwd_format = tuple_to_format(bwd_format_tuple)\n    query, key, value = (fwd_format.quantise_fwd(t) for t in (query, key, value))\n    output = F.scaled_dot_product_attention(query, key, value, **kwargs)"), expect="F.scaled_dot_product_attention")
+V("c15-splice-position", "break", ["C15"], (SF, "        args[:3] + [format_to_tuple(fwd_format), format_to_tuple(bwd_format)] + args[3:]", "        args[:3] + [format_to_tuple(bwd_format), format_to_tuple(fwd_format)] + args[3:]"))
+V("c15-keep-genexpr", "keep", ["C15"], (SF, "    input = fwd_format.quantise_fwd(input)\n    weight = fwd_format.quantise_fwd(weight)\n    output = F.linear(input, weight, bias)", "    input, weight = (fwd_format.quantise_fwd(t) for t in (input, weight))\n    output = F.linear(input, weight, bias=bias)"))
